@@ -26,6 +26,7 @@ pub fn base(name: &str, property: &'static str) -> ReplCell {
         oracles: Oracles::default(),
         closure_rounds: 6,
         junk_acks: false,
+        straggler_acks: false,
         split_stage: false,
     }
 }
